@@ -211,6 +211,12 @@ def parse_items(src, masked=None, lo=0, hi=None):
         # but '(' '[' respected)
         k = j
         depth = 0
+        if kw in ('use', 'extern'):
+            while masked[k] != ';':
+                if masked[k] in OPEN:
+                    k = match_close(masked, k) + 1
+                else:
+                    k += 1
         while True:
             ch = masked[k]
             if ch in '([':
